@@ -933,7 +933,7 @@ class Unit:
                 optional = ln.startswith("//@insert?")
                 if optional:
                     ln = "//@insert" + ln[len("//@insert?"):]
-                m = re.match(r"//@insert\s+(before|after|inv)\s+`(.*)`\s*$", ln)
+                m = re.match(r"//@insert\s+(before|after|inv|loop-end)\s+`(.*)`\s*$", ln)
                 if not m:
                     m = re.match(r"//@insert\s+(tail|start|end)()\s*$", ln)
                 if not m:
@@ -1083,10 +1083,12 @@ class Unit:
                     new_body = new_body[:a] + marker + new_body[a:]
                 elif mode == "after":
                     new_body = new_body[:b] + marker + new_body[b:]
-                else:  # inv: before the `{` that opens the loop body
+                else:  # inv: before the `{` that opens the loop body; loop-end: before the `}` that closes it
                     btoks = lex(new_body)
                     q = next(idx for idx, t in enumerate(btoks) if t.start >= b and t.kind == "p" and t.text == "{"
                              and _depth_between(btoks, b, idx) == 0)
+                    if mode == "loop-end":
+                        q = match_close(btoks, q)
                     off = btoks[q].start
                     new_body = new_body[:off] + marker + new_body[off:]
                 self.counts.add("ghost-insertions")
